@@ -65,6 +65,7 @@ impl SnmpPriv for DesKey {
             iv[idx] = x ^ y;
         }
         // Add padding
+        self.buf.reset();
         self.buf.push(&PADDING)?;
         // Serialize
         pdu.push_ber(&mut self.buf)?;
